@@ -1278,6 +1278,9 @@ func witnessLines() []string {
 		"async docs=5:0:a:1,5:0:a:1,7:0:a:2 layout=0,2;1 lastActive=0 q=* desc=1 hi=0 agg=none from=0 to=100000 crash=0 at=written",
 		// the same document in two fractions, histogram interval 10: the fold corrects bucket MID (interval 1) instead of 0
 		"async docs=5:0:a:1,5:0:a:1,7:0:a:2 layout=0,2;1 lastActive=0 q=* desc=1 hi=10 agg=none from=0 to=100000 crash=0 at=written",
+		// a sum aggregation over a field with one non-numeric value: the fraction's Search returns an error (the
+		// synchronous path hands it to the client); in the async worker it is logger.Fatal - at every restart again
+		"async docs=5:0:a:abc:1:0,6:0:a:2:1:0 layout=0,1 lastActive=0 late=- qx=5f616c6c5f3a2a desc=1 hi=0 agg=sum from=0 to=100000 crash=0 at=written",
 	}
 }
 
@@ -1334,6 +1337,18 @@ func runSys(lines []string, orc *vh.Oracle, rep *vh.Report, o vh.Opts) {
 			continue
 		}
 		crashed := code == 7
+		if code != 0 && !crashed && strings.Contains(se, "async search failed") {
+			// logger.Fatal in processRequest; the unfinished request is resumed by the restarted store: does it die again?
+			_, code2, se2 := runChild("resume", dir, line, 40*time.Second)
+			again := "the restarted store comes up"
+			if code2 != 0 && strings.Contains(se2, "async search failed") {
+				again = "the restarted store resumes the request and exits again (crash loop)"
+			}
+			rep.Violate(vh.Violation{Site: "fracmanager/async_searcher.go:processRequest", Class: "search-error-kills-store",
+				What: fmt.Sprintf("an error of a fraction's Search inside the async search is logger.Fatal: the store exits (%d): %s; %s", code, lastLine(se), again), Replay: []string{line}})
+			os.RemoveAll(dir)
+			continue
+		}
 		if code != 0 && !crashed {
 			rep.Violate(vh.Violation{Site: "fracmanager/async_searcher.go:processFrac", Class: classOfDeath(se),
 				What: fmt.Sprintf("store process died (exit %d) during the async search: %s", code, lastLine(se)), Replay: []string{line}})
@@ -1391,6 +1406,9 @@ func lastLine(s string) string {
 	ls := strings.Split(strings.TrimSpace(s), "\n")
 	for i := len(ls) - 1; i >= 0; i-- {
 		if strings.Contains(ls[i], "panic") || strings.Contains(ls[i], "BUG") || strings.Contains(ls[i], "fatal") {
+			if len(ls[i]) > 300 {
+				return strings.TrimSpace(ls[i])[:300]
+			}
 			return strings.TrimSpace(ls[i])
 		}
 	}
